@@ -62,3 +62,12 @@ EDITS += [
     {'id': 'value-as-array', 'expect': 'silent', 'file': 'spowtd/specific_yield.py',
      'old': '        return self._spline(water_level_mm)', 'new': '        return np.asarray(self._spline(water_level_mm))'},
 ]
+
+# round 8 (hardening that is not)
+EDITS += [
+    {'id': 'r8-first-point-dropped', 'expect': 'fire', 'rule': 'C14.O1', 'file': 'spowtd/spline.py', 'old': '        tck = splrep(x, y, s=s, k=order)', 'new': '        x, y = x[1:], y[1:]\n        tck = splrep(x, y, s=s, k=order)'},
+    {'id': 'r8-isclose-deduplicated-knots', 'expect': 'fire', 'rule': 'C14.O1', 'file': 'spowtd/spline.py', 'old': '        tck = splrep(x, y, s=s, k=order)', 'new': '        x, y = np.asarray(x), np.asarray(y)\n        keep = np.concatenate(([True], ~np.isclose(x[1:], x[:-1])))\n        x, y = x[keep], y[keep]\n        tck = splrep(x, y, s=s, k=order)'},
+    {'id': 'r8-columns-as-arrays', 'expect': 'silent', 'file': 'spowtd/spline.py', 'old': '        x, y = zip(*points)', 'new': "        x, y = (np.asarray(v, dtype='float64') for v in zip(*points))"},
+    {'id': 'r8-integrate-isclose-zero', 'expect': 'fire', 'rule': 'C14.O4', 'file': 'spowtd/specific_yield.py', 'old': '        return self._spline.integrate(', 'new': '        if np.isclose(lo_water_level_mm, hi_water_level_mm):\n            return 0.0\n        return self._spline.integrate('},
+    {'id': 'r8-integrate-exact-zero-width', 'expect': 'silent', 'file': 'spowtd/specific_yield.py', 'old': '        return self._spline.integrate(', 'new': '        if lo_water_level_mm == hi_water_level_mm:\n            return 0.0\n        return self._spline.integrate('},
+]
